@@ -94,6 +94,11 @@ def loc_crosses(loc: dict) -> bool:
     return gen.is_span(loc)
 
 
+def has_touching_exons(loc: dict) -> bool:
+    parts = loc["parts"]
+    return any(one[1] == two[0] or one[0] == two[1] for one, two in zip(parts, parts[1:]))
+
+
 class Feat:
     """ a parsed GenBank feature, reduced to what is compared """
     def __init__(self, bio_feature: Any, index: int) -> None:
@@ -247,7 +252,8 @@ def judge_file(text: str, parent: Parent, rmap: RegionMap, info: dict) -> tuple:
     missing = [feat for values in remaining.values() for feat in values]
     if missing:
         sample = sorted(missing, key=lambda f: f.index)[:4]
-        bad("features_missing", {"count": len(missing), "missing": [
+        bad("features_missing", {"count": len(missing), "count_origin_spanning_with_touching_exons": sum(
+            1 for f in missing if loc_crosses(f.loc) and has_touching_exons(f.loc)), "missing": [
             {"type": f.type, "parent_location": loc_text(f.loc),
              "want": show(compact(rmap.ordered_in_region(f.loc), f.loc["strand"])),
              "file_same_type": [loc_text(g.loc) for g in unmatched_file if g.type == f.type][:3],
@@ -444,6 +450,8 @@ def expected_content(record: Any, region: Any, rmap: RegionMap) -> dict:
         "region_subregions": sorted(s.label for s in region.subregions),
         "cds": sorted([c.get_name(), mapped(c.location), c.translation, sorted(str(f) for f in c.gene_functions)]
                       for c in record.get_cds_features() if inside(c)),
+        "genes": sorted([g.get_name(), mapped(g.location)] for g in record.get_genes() if inside(g)),
+        "generics": sorted([f.type, mapped(f.location), sorted(f.notes)] for f in record.get_generics() if inside(f)),
         "pfams": sorted([d.domain_id, mapped(d.location), int(d.protein_location.start), int(d.protein_location.end),
                          d.identifier, d.locus_tag] for d in record.get_pfam_domains() if inside(d)),
         "asdomains": sorted([d.domain_id, mapped(d.location), int(d.protein_location.start),
@@ -484,6 +492,8 @@ def reloaded_content(record: Any) -> dict:
         "region_subregions": sorted(s.label for s in region.subregions),
         "cds": sorted([c.get_name(), plain(c.location), c.translation, sorted(str(f) for f in c.gene_functions)]
                       for c in record.get_cds_features()),
+        "genes": sorted([g.get_name(), plain(g.location)] for g in record.get_genes()),
+        "generics": sorted([f.type, plain(f.location), sorted(f.notes)] for f in record.get_generics()),
         "pfams": sorted([d.domain_id, plain(d.location), int(d.protein_location.start), int(d.protein_location.end),
                          d.identifier, d.locus_tag] for d in record.get_pfam_domains()),
         "asdomains": sorted([d.domain_id, plain(d.location), int(d.protein_location.start),
@@ -629,7 +639,11 @@ def check_region_files(spec: dict, sub: str = "files", beyond_known: bool = Fals
             start = loc["parts"][0][0]
             end = loc["parts"][-1][1]
             rmap = RegionMap(start, end, length)
-            info = {"region": index + 1, "start": start, "end": end, "crosses": crosses, "L": length}
+            info = {"region": index + 1, "start": start, "end": end, "crosses": crosses, "L": length,
+                    "multipart_feature_spans_region": any(
+                        len(f.loc["parts"]) > 1 and rmap.inside(f.loc["parts"]) and not loc_crosses(f.loc)
+                        and min(p[0] for p in f.loc["parts"]) == start and max(p[1] for p in f.loc["parts"]) == end
+                        for f in parent.feats)}
             want = expected_content(record, region, rmap)
             # --- classes
             labels = ["region_spans_origin" if crosses else "region_plain"]
@@ -656,6 +670,8 @@ def check_region_files(spec: dict, sub: str = "files", beyond_known: bool = Fals
             if any(loc_crosses(f.loc) and not rmap.inside(f.loc["parts"]) for f in parent.feats) and crosses:
                 labels.append("origin_spanning_feature_sticking_out")
             classes.extend(labels)
+            if info["multipart_feature_spans_region"]:
+                labels.append("multipart_feature_spans_region")
             if crosses or want["prepeptides"] or len(region.candidate_clusters) >= 2:
                 nontrivial = True
 
@@ -774,7 +790,24 @@ def sig_origin_features_outside_region(sub, spec, clause, detail) -> bool:
             and detail["all_are_parent_features_outside_the_region"])
 
 
+def sig_region_sized_multipart_feature(sub, spec, clause, detail) -> bool:
+    """ a multi-exon feature reaching from the first to the last base of a (linear) region: the loader takes it
+        for an origin-spanning feature in a linear record """
+    return (clause in ("reload_failed", "reload_failed_after_repair") and not detail["crosses"]
+            and detail["multipart_feature_spans_region"]
+            and "origin spanning exon while in a linear record" in detail["message"])
+
+
+def sig_touching_exons_over_origin(sub, spec, clause, detail) -> bool:
+    """ origin-spanning feature with exons that touch (end == next start): offset_location's merge loop loses
+        the first of three adjacent parts """
+    return (clause == "features_missing" and detail["crosses"]
+            and detail["count"] == detail["count_origin_spanning_with_touching_exons"])
+
+
 SIGNATURES = {
+    "touching_exons_over_origin": sig_touching_exons_over_origin,
+    "region_sized_multipart_feature": sig_region_sized_multipart_feature,
     "region_refs_not_renumbered": sig_region_refs_not_renumbered,
     "shared_record_qualifiers_of_origin_features": sig_shared_record_qualifiers_of_origin_features,
     "motif_refs_after_origin": sig_motif_refs_after_origin,
@@ -849,8 +882,25 @@ def record_specs(draw) -> dict:
     for start, size in area_arcs:
         if draw(st.integers(0, 2)) > 0:
             continue
-        mode = draw(st.sampled_from(["at_start", "at_end", "across_start", "across_end", "inside"]))
+        mode = draw(st.sampled_from(["at_start", "at_end", "across_start", "across_end", "inside", "cover"]))
         gsize = 3 * draw(st.integers(1, max(1, min(size, 60) // 3)))
+        if mode == "cover":
+            # a gene from the first to the last base of the area, optionally with an intron
+            strand = draw(st.sampled_from([1, -1]))
+            if start + size <= length and size >= 9 and draw(st.booleans()):
+                cut1 = draw(st.integers(start + 3, start + size - 5))
+                cut2 = draw(st.integers(cut1 + 1, start + size - 3))
+                parts = [[start, cut1], [cut2, start + size]]
+                if strand == -1:
+                    parts.reverse()
+                loc = {"parts": parts, "strand": strand, "kind": "multi"}
+            else:
+                loc = _arc_loc(start, size, length, strand)
+            key = (tuple(map(tuple, loc["parts"])), loc["strand"])
+            if key not in seen:
+                seen.add(key)
+                genes.append({"loc": loc})
+            continue
         if mode == "at_start":
             gstart = start
         elif mode == "at_end":
@@ -870,8 +920,36 @@ def record_specs(draw) -> dict:
             continue
         seen.add(key)
         genes.append({"loc": loc})
+    if circular and rotation and draw(st.integers(0, 5)) == 0:
+        # an origin-spanning gene with two exons that touch each other (join(a..L,1..k,k+1..b))
+        strand = draw(st.sampled_from([1, -1]))
+        pre = draw(st.integers(1, 12))
+        mid = draw(st.integers(1, 9))
+        post = mid + draw(st.integers(1, 12))
+        if draw(st.booleans()):
+            parts = [[length - pre, length], [0, mid], [mid, post]]
+        else:
+            parts = [[length - pre - mid, length - pre], [length - pre, length], [0, post - mid]]
+        if sum(e - s for s, e in parts) >= 3:
+            if strand == -1:
+                parts.reverse()
+            key = (tuple(map(tuple, parts)), strand)
+            if key not in seen:
+                seen.add(key)
+                genes.append({"loc": {"parts": parts, "strand": strand, "kind": "span"}})
     for index, gene in enumerate(genes):
         gene["name"] = f"g{index}"
+        if draw(st.integers(0, 2)) == 0:
+            gene["gene_feature"] = True
+    misc = [{"loc": draw(gen.any_location(length, allow_span=circular))}
+            for _ in range(draw(st.sampled_from([0, 0, 1, 2])))]
+    for start, size in area_arcs[:2]:
+        if draw(st.integers(0, 3)) == 0:     # and one tied to an area: inside it, or exactly its extent
+            inner = draw(gen.any_location(size, allow_span=False)) if draw(st.booleans()) else \
+                {"parts": [[0, size]], "strand": draw(st.sampled_from([1, -1]))}
+            if (start + size <= length):
+                misc.append({"loc": {"parts": [[s + start, e + start] for s, e in inner["parts"]],
+                                     "strand": inner["strand"], "kind": "simple"}})
 
     # which genes lie wholly inside an area (prepeptide hosts), which cores they sit in (definition genes)
     area_sets = [ring.arc_bases(start, size, length) for start, size in area_arcs]
@@ -900,7 +978,7 @@ def record_specs(draw) -> dict:
                 b = draw(st.integers(a + 1, residues))
                 annos.append({"kind": kind, "gene": index, "a": a, "b": b})
     return {"L": length, "circular": circular, "seed": draw(st.integers(0, 3)), "genes": genes,
-            "protos": protos, "subs": subs, "annos": annos,
+            "protos": protos, "subs": subs, "annos": annos, "misc": misc,
             "mode": draw(st.sampled_from(["fresh", "shared", "shared"]))}
 
 
